@@ -19,6 +19,7 @@ package ocsp
 //@   ensures[C02,C03,C05] strict_needs_an_answer: called(OCSPRevocationChecker.filterHTTPOCSPServers#1) && !(called(OCSPRevocationChecker.parseOcspResponse#1) && res(OCSPRevocationChecker.parseOcspResponse#1, 1) == nil && res(OCSPRevocationChecker.parseOcspResponse#1, 0).SerialNumber != nil && big(res(OCSPRevocationChecker.parseOcspResponse#1, 0).SerialNumber) == big(clientCertificate.SerialNumber)) && c.ocspConfig.OCSPAIAStrict && len(res(OCSPRevocationChecker.filterHTTPOCSPServers#1)) > 0 ==> err != nil
 //@   ensures[C02] lenient_never_rejects_for_unavailability: called(OCSPRevocationChecker.filterHTTPOCSPServers#1) && !(called(OCSPRevocationChecker.parseOcspResponse#1) && res(OCSPRevocationChecker.parseOcspResponse#1, 1) == nil && res(OCSPRevocationChecker.parseOcspResponse#1, 0).SerialNumber != nil && big(res(OCSPRevocationChecker.parseOcspResponse#1, 0).SerialNumber) == big(clientCertificate.SerialNumber)) && !(c.ocspConfig.OCSPAIAStrict && len(res(OCSPRevocationChecker.filterHTTPOCSPServers#1)) > 0) ==> err == nil && !ret.Revoked
 //@   ensures[C05] answer_is_about_this_certificate: err == nil && ret.OcspResponse != nil && !(called(OCSPRevocationChecker.tryGetResponseFromCache#1) && res(OCSPRevocationChecker.tryGetResponseFromCache#1, 1) == nil) ==> ret.OcspResponse.SerialNumber != nil && big(ret.OcspResponse.SerialNumber) == big(clientCertificate.SerialNumber)
+//@   ensures[C14] cached_lifetime_is_the_computed_one: called(CacheTable.Add#any) ==> called(OCSPRevocationChecker.calculateEvictionTime#1) && arg(CacheTable.Add#any, 2) == res(OCSPRevocationChecker.calculateEvictionTime#1)
 //@   ensures[C02,C03,C05,C14] only_answers_are_cached: called(CacheTable.Add#any) ==> called(OCSPRevocationChecker.parseOcspResponse#1) && res(OCSPRevocationChecker.parseOcspResponse#1, 1) == nil && res(OCSPRevocationChecker.parseOcspResponse#1, 0).SerialNumber != nil && big(res(OCSPRevocationChecker.parseOcspResponse#1, 0).SerialNumber) == big(clientCertificate.SerialNumber) && arg(CacheTable.Add#any, 2) > 0
 //@   ensures[C02,C14] cached_verdict_is_the_answer: called(CacheTable.Add#any) ==> typeis(arg(CacheTable.Add#any, 3), core.RevocationStatus) && as(arg(CacheTable.Add#any, 3), core.RevocationStatus).Revoked == (res(OCSPRevocationChecker.parseOcspResponse#1, 0).Status == ocsp.Revoked) && as(arg(CacheTable.Add#any, 3), core.RevocationStatus).OcspResponse == res(OCSPRevocationChecker.parseOcspResponse#1, 0)
 //@   ensures[C14,C05] cache_key_names_issuer_and_serial: called(OCSPRevocationChecker.tryGetResponseFromCache#1) ==> arg(OCSPRevocationChecker.tryGetResponseFromCache#1, 1) == old(cacheKeyOf(clientCertificate))
